@@ -15,6 +15,7 @@ import ControlModel.Gen.EnvGlue
 import ControlModel.Gen.FailureFacts
 import ControlModel.Proofs.Env
 import ControlModel.Proofs.EnvConc
+import ControlModel.Proofs.EnvPair
 import ControlModel.Spec.C01
 
 open EnvM
@@ -229,6 +230,16 @@ theorem C01_lock_sites_are_code :
     Gen.stateWriteSites.map (·.2) =
       [("state", false), ("wfState.String()", false), ("ERROR", false), ("ERROR", false), ("DONE", true),
        ("ERROR", false), ("ERROR", false), ("ERROR", false)] := by decide
+
+/-- How the mutex is taken, re-read from the source by go/ast on every run: the only functions that touch
+    `transitionMutex` are TryTransition and TeardownEnvironment, each as
+    `if !m.TryLock() { log…; m.Lock(); log… }; defer m.Unlock()` with nothing but plain calls in the
+    if-body: a caller that finds the mutex busy ALWAYS queues for it — whoever holds it, a transition or a
+    teardown — and is carried out afterwards. This is the `.start` / `.between .goError` move of
+    Model/EnvConc (not enabled while somebody holds; nothing else the caller can do). A way out of that
+    if-body (a request refused at once because "a teardown is in progress", say) makes this theorem false. -/
+theorem C01_busy_mutex_is_waited_for_is_code :
+    Gen.mutexAcquireSites = [("TryTransition", true), ("TeardownEnvironment", true)] := by decide
 
 /-- The one unlocked writer whose argument is not a literal — `env.setState(wfState.String())` in
     the workflow watcher (`subscribeToWfState`) — only ever writes ERROR: the watcher reacts to
@@ -561,3 +572,99 @@ theorem C01_par_eq_seq (hooks : List Hook) (n : Nat) (env : Env) (a b : Req)
     stepHeld hooks n (!env.gone) (step hooks n env a).1 b = step hooks n (step hooks n env a).1 b := by
   generalize hs : step hooks n env a = r at hg
   cases b <;> simp [stepHeld, step, hg]
+
+/-! ### nothing is carried out while another request is in progress -/
+
+/-- **While a caller is inside the mutex, the callers that have not been inside yet can do nothing**: for
+    EVERY schedule of their moves (the holder does not move) the environment and the log stay what they
+    are, the holder still holds and the others are still newcomers — none has run anything, none has
+    returned. This is the model's side of the harness's overlap record: with the first request of a pair
+    parked inside its critical section, the second one queues and the reported state does not move
+    (`overlapItems`, Spec clause `st1 = st0`). A request that is refused at once and answered with a forced
+    write, as in "teardown in progress ⇒ do not queue", is not a behaviour of this layer. -/
+theorem C01_nothing_happens_while_held (hooks : List Hook) (n : Nat) (s : Sys) (j : Nat) (sched : List Nat)
+    (hs : ∀ i ∈ sched, i ≠ j) (h : HeldBy s j) :
+    (runSched hooks n s sched).env = s.env ∧ (runSched hooks n s sched).log = s.log ∧
+      HeldBy (runSched hooks n s sched) j :=
+  let r := heldBy_run hooks n s j sched hs h
+  ⟨r.2.1, r.2.2, r.1⟩
+
+/-- **The one write outside any critical section needs two critical sections of its own**: under every
+    schedule of any set of callers, a forced ERROR in the log was written by a caller whose own request
+    AND whose GO_ERROR fallback had both been carried out under the mutex before — and had failed. The
+    write can land while somebody else (a teardown, say) is inside only in that way: never from a
+    request that has just arrived. -/
+theorem C01_forced_write_needs_own_sections (hooks : List Hook) (n : Nat) (env : Env) (reqs : List Req)
+    (sched : List Nat) (pre post : List LogEntry) (x : LogEntry)
+    (hlog : (runSched hooks n (initSys env reqs) sched).log = pre ++ x :: post) (hx : x.isForce = true) :
+    wentThrough pre x.caller = true := by
+  have h := (forceInv_run hooks n _ sched (forceInv_init env reqs)).just
+  rw [hlog] at h
+  simpa using forcedJustified_at [] pre post x h hx
+
+/-- Non-vacuity, and the schedule in which the write does land during a teardown: caller 0's request and
+    fallback are vetoed by a critical hook (two critical sections of its own), it reads the state, caller 1
+    takes the mutex for its teardown, and caller 0 forces ERROR while caller 1 is still inside. -/
+example :
+    let hooks : List Hook := [{ id := 0, isTask := false, critical := true, trig := .leave .STANDBY, tw := 0,
+                                await := .leave .STANDBY, aw := 0, outcomes := [true, true, true] }]
+    let s := runSched hooks 1 (initSys {} [.control .DEPLOY true false, .teardown true true true]) [0, 1, 0, 0, 0, 0, 0, 1, 0]
+    s.log.map (fun x => (x.caller, x.isForce)) = [(0, false), (0, false), (1, false), (0, true)] ∧
+      (s.callers.map Caller.isHolding) = [false, true] := by decide
+
+/-! ### the pairs the harness issues, under every schedule -/
+
+/-- With the first request of a pair inside its critical section, every schedule that does not let it
+    leave keeps the environment at what that critical section made of it, and the second caller queueing. -/
+theorem C01_pair_second_waits (hooks : List Hook) (n : Nat) (env : Env) (a b : Req) (ha : a.isControl = false)
+    (sched : List Nat) (hs : ∀ i ∈ sched, i ≠ 0) :
+    let s := runSched hooks n (pairStart hooks n env a b) sched
+    s.env = (step hooks n env a).1 ∧ s.log = (pairStart hooks n env a b).log ∧
+      s.callers.map Caller.isNew = [false, true] := by
+  have hp := onPath_start hooks n env a b ha
+  have hh : HeldBy (pairStart hooks n env a b) 0 := by
+    refine ⟨⟨_, by rw [hp.2.1]; rfl, rfl⟩, ?_⟩
+    intro i ci hi hci
+    rw [hp.2.1] at hci
+    match i with
+    | 0 => exact absurd rfl hi
+    | 1 => simp at hci; subst hci; rfl
+    | k + 2 => simp at hci
+  have r := heldBy_run hooks n _ 0 sched hs hh
+  have hon := onPath_run hooks n env a b _ sched ⟨_, hp⟩
+  refine ⟨?_, r.2.2, ?_⟩
+  · rw [r.2.1, hp.2.2, ← runLocked_eq_step hooks n env a ha]; rfl
+  · obtain ⟨ph, _, hc, _⟩ := hon
+    obtain ⟨⟨cj, hj, hhj⟩, hnew⟩ := r.1
+    rw [hc] at hj hnew
+    have h1 := hnew 1 _ (by decide) rfl
+    simp at hj; subst hj
+    rw [hc]
+    simp only [List.map_cons, List.map_nil, h1]
+    cases ph <;> simp_all [Caller.isHolding, Caller.isNew, Phase.pc0]
+
+/-- **A pair is executed as `runPar` says, under EVERY schedule**: two callers, both look-ups made, the
+    first (a transition through TryTransition or a teardown) inside its critical section — whatever the
+    order of the moves from there, when both callers are done the environment is the one the sequential
+    model of the pair ends in (`runPar`: the first request, then the second on what the first left, with
+    the look-up it made before). The trace monitor's model is the outcome of all schedules of the
+    concurrent layer. -/
+theorem C01_pair_every_schedule (hooks : List Hook) (n : Nat) (env : Env) (a b : Req) (ha : a.isControl = false)
+    (sched : List Nat) :
+    let s := runSched hooks n (pairStart hooks n env a b) sched
+    s.allDone = true → (runPar hooks n env [.par a b]).getLast?.map (·.2.2) = some s.env := by
+  intro s hd
+  obtain ⟨ph, hok, hc, he⟩ := onPath_run hooks n env a b _ sched ⟨_, onPath_start hooks n env a b ha⟩
+  have hf : ph.isFinal = true := by
+    have : s.callers = _ := hc
+    simp only [Sys.allDone, this] at hd
+    cases ph <;> simp_all [Phase.pc0, Phase.pc1, Phase.isFinal, Pc.isDone]
+  have := final_env hooks n env a b ph hf hok
+  rw [runLocked_eq_step hooks n env a ha] at this
+  show _ = some s.env
+  rw [he, this]
+  rfl
+
+example :
+    let s := runSched [] 1 (pairStart [] 1 {} (.teardown true true true) (.control .DEPLOY true false)) [1, 1, 0, 1, 1, 1, 1, 1, 1, 1]
+    s.allDone = true ∧ s.env.st = .DONE ∧ s.log.map (fun x => (x.caller, x.after.st)) = [(0, .DONE), (1, .DONE), (1, .DONE)] := by decide
